@@ -22,6 +22,8 @@
 #include <iostream>
 #include <memory>
 #include <sstream>
+#include <deque>
+#include <memory>
 #include <string>
 #include <vector>
 
@@ -170,7 +172,13 @@ int main()
          // ordinary symbols named like the word itself, typed void / bool / int: legal requests that must not capture any route
          lex.get_symbol(lex.get_identifier(w), lex.void_type());
          lex.get_symbol(lex.get_identifier(w), lex.bool_type());
-         lex.get_symbol(lex.get_identifier(w), lex.int_type());
+         {
+            // a look-alike is not the constant: its decltype is a type of its own whose operand is the look-alike
+            auto& look = lex.get_symbol(lex.get_identifier(w), lex.int_type());
+            auto& dt = lex.get_decltype(look);
+            if (&dt == &lex.nullptr_value().type() or &dt.expr() != &static_cast<const ipr::Expr&>(look))
+               std::printf("assert-failed decltype-of-a-look-alike %d %s\n", i, h.c_str());
+         }
          lex.get_as_type(*lex.make_id_expr(near2));
          lex.get_as_type(near1);
          lex.get_linkage(w + u8"#");
@@ -202,6 +210,17 @@ int main()
          // the word overloads receive a VIEW into a larger buffer (a token of a source line): the bytes behind it are not NUL
          const std::u8string buffer = w + u8"+;x";
          const util::word_view token(buffer.data(), w.size());
+         // a String node the client made itself (a front end's token text), kept alive for the whole run: the String routes go by
+         // the characters, whoever made the node
+         static std::deque<std::pair<std::u8string, std::unique_ptr<ipr::impl::String>>> client_strings;
+         client_strings.emplace_back(w, nullptr);
+         client_strings.back().second = std::make_unique<ipr::impl::String>(util::word_view(client_strings.back().first));
+         const ipr::String& client = *client_strings.back().second;
+         if (kind == "as_type" or kind == "ident" or kind == "label") {
+            auto& by_pool = lex.get_identifier(lex.get_string(token));
+            auto& by_client = lex.get_identifier(client);
+            if (&by_pool != &by_client) std::printf("assert-failed identifier-of-a-client-made-String %d %s\n", i, h.c_str());
+         }
          if (kind == "as_type") {
             auto& a = lex.get_as_type(lex.get_identifier(token));
             auto& b = lex.get_as_type(lex.get_identifier(lex.get_string(token)));
